@@ -109,5 +109,63 @@ mutual
     | .mk _ _ t :: r => pyRt t && !(Py.stTy t).dyn && pyRtArms r
 end
 
+/-! ### model level: what `model.evaluate_model` accepts, whatever front-end (prophy, isar, sack) and patch produced the nodes
+
+  prophyc/model.py: `_Container._check_members_duplication` (names of members / enumerators / arms), `validate_bounds` (the
+  sizer is a member), `validate_sizer_types` (a builtin integer, possibly behind typedefs - resolved away in `Ty`),
+  `validate_values` (enumerators and discriminators in 32 bits, discriminators distinct), `validate_composability` (optional /
+  sized array of a non-fixed type, array of an unlimited type, sizer before its array and neither optional nor an array,
+  positive sizes, greedy / unlimited member last, fixed union arms).  Structs, enums and unions WITHOUT members pass (a patch
+  `remove` or sack can make them: finding D56); names being identifiers and not those of builtins (`validate_names`,
+  `validate_unique_names`) are properties of the name space, which a resolved tree does not have. -/
+mutual
+  def model : Ty → Bool
+    | .prim _ => true
+    | .byte => true
+    | .enum _ es => uniq (es.map (·.1)) && es.all (fun e => e.2 < 2 ^ 32)
+    | .struct _ ms => uniq (ms.map (·.name)) && modelMs ms ms []
+    | .union _ arms =>
+      uniq (arms.map (·.name)) && uniq (arms.map (fun a => toString a.disc))
+        && arms.all (fun a => a.disc < 2 ^ 32) && modelArms arms
+  def modelMs (all : List Member) : List Member → List Member → Bool
+    | [], _ => true
+    | .mk n t k :: r, before =>
+      let kind := (PL.nodeTy t).kind
+      model t
+      && !(isOptional k && kind != 0)
+      && !((sizeOf? k).isSome && kind != 0)
+      && !(isArrayKind k && kind == 2)
+      && (match k.sizer? with
+          | some s =>
+            all.any (·.name == s)                                   -- validate_bounds
+            && (match before.find? (·.name == s) with               -- validate_composability + validate_sizer_types
+                | some (.mk _ st sk) => isIntPrim st && !(isOptional sk) && !(isArrayKind sk)
+                | none => false)
+          | none => true)
+      && (match sizeOf? k with | some c => decide (0 < c) | none => true)
+      && (r.isEmpty || (!(isGreedy k) && kind != 2))
+      && modelMs all r (before ++ [.mk n t k])
+  def modelArms : List Arm → Bool
+    | [] => true
+    | .mk _ _ t :: r => model t && (PL.nodeTy t).kind == 0 && modelArms r
+end
+
+/- what only the grammar of the prophy language adds: containers have members, `bytes` is an array kind of its own
+   (a bare `byte` member or arm does not exist) -/
+mutual
+  def grammar : Ty → Bool
+    | .prim _ => true
+    | .byte => true
+    | .enum _ es => !es.isEmpty
+    | .struct _ ms => !ms.isEmpty && grammarMs ms
+    | .union _ arms => !arms.isEmpty && grammarArms arms
+  def grammarMs : List Member → Bool
+    | [] => true
+    | .mk _ t k :: r => grammar t && (match t with | .byte => isArrayKind k | _ => true) && grammarMs r
+  def grammarArms : List Arm → Bool
+    | [] => true
+    | .mk _ _ t :: r => grammar t && (match t with | .byte => false | _ => true) && grammarArms r
+end
+
 end Accept
 end Prophy
